@@ -232,7 +232,7 @@ def rule_zero_cost(ctx, px, rule_id: str):
     for st, gd in pyfront.walk_guarded(f.node.body):
         if not isinstance(st, ast.Return) or st.value is None:
             continue
-        terms = pyfront.guard_terms(gd)
+        terms = pyfront.guard_terms([(pyfront.subst_locals(f.node, t_) if not isinstance(t_, str) else t_, p_) for t_, p_ in gd])
         v = resolve(st.value)
         is_false = isinstance(v, ast.Constant) and v.value is False
         endian = [(e, p) for e, p in terms if "target_endianness" in e]
@@ -700,7 +700,11 @@ def rule_std_width(ctx, px, rule_id: str):
                 if isinstance(n, ast.For) and isinstance(n.target, ast.Name):
                     it, var = resolve(n.iter), n.target.id
                     inner = [s_ for s_ in n.body if isinstance(s_, ast.If)]
-                    if inner and any(isinstance(x, ast.Return) and isinstance(x.value, ast.Name) and x.value.id == var for x in ast.walk(inner[0])):
+                    def _is_var(e_):
+                        return (isinstance(e_, ast.Name) and e_.id == var) or \
+                            (isinstance(e_, ast.Call) and len(e_.args) == 1 and not e_.keywords and isinstance(e_.args[0], ast.Name) and e_.args[0].id == var
+                             and enum_seq is not None and ast.unparse(e_.func) in enum_seq[0])      # cls(member) is the member
+                    if inner and any(isinstance(x, ast.Return) and x.value is not None and _is_var(x.value) for x in ast.walk(inner[0])):
                         test = inner[0].test
                 elif isinstance(n, (ast.ListComp, ast.GeneratorExp)) and len(n.generators) == 1 and isinstance(n.generators[0].target, ast.Name) \
                         and isinstance(n.elt, ast.Name) and n.elt.id == n.generators[0].target.id and len(n.generators[0].ifs) == 1:
